@@ -1,6 +1,7 @@
-From Coq Require Import Extraction ExtrOcamlBasic.
-From Coq Require Import ZArith.
-From V Require Import lib.Words spec.RfcTables spec.PrefixCode spec.Decoder.
+From Coq Require Import Extraction ExtrOcamlBasic ZArith.
+From V Require Import lib.Words lib.PMap spec.RfcTables spec.PrefixCode spec.Decoder model.EncConfig model.RingBuf.
 Extraction Language OCaml.
 Extraction "../build/ocaml/c01/model.ml"
-  decode ngetd context_id apply_transform rfc_lut0 rfc_lut1 rfc_lut2 dist_limit dist_alphabet Z.of_N.
+  decode ngetd context_id apply_transform rfc_lut0 rfc_lut1 rfc_lut2 dist_limit dist_alphabet Z.of_N
+  wrap_position set_params configure hq_histogram_ok hq_ok known_hasher choose_hasher_type
+  rb_setup rb_writes rb_at fold_pos fold_pos_asfound.
